@@ -14,6 +14,12 @@ import (
 	"github.com/postalsys/muti-metroo/internal/protocol"
 )
 
+// maxOutputChunk is the largest stdout/stderr read that still fits into a
+// single frame once the 1-byte message type is prepended and the message is
+// encrypted. The receiver decrypts each frame on its own, so an encrypted
+// message must never be split across frames by WriteStreamData.
+const maxOutputChunk = protocol.MaxPayloadSize - crypto.EncryptionOverhead - 1
+
 // DataWriter is the interface for sending data to a stream.
 type DataWriter interface {
 	WriteStreamData(peerID identity.AgentID, streamID uint64, data []byte, flags uint8) error
@@ -387,7 +393,7 @@ func (h *Handler) writeEncrypted(ss *ShellStream, data []byte, flags uint8) erro
 // pumpOutput reads from a reader and sends encoded messages to the client.
 // The encoder function determines the message type (stdout or stderr).
 func (h *Handler) pumpOutput(ss *ShellStream, getReader func() io.Reader, encode func([]byte) []byte) {
-	buf := make([]byte, 16*1024) // 16KB buffer
+	buf := make([]byte, maxOutputChunk)
 	for {
 		ss.mu.Lock()
 		session := ss.Session
@@ -436,7 +442,7 @@ func (h *Handler) pumpStderr(ss *ShellStream) {
 
 // pumpPTYOutput reads PTY output and sends it to the client.
 func (h *Handler) pumpPTYOutput(ss *ShellStream) {
-	buf := make([]byte, 16*1024) // 16KB buffer
+	buf := make([]byte, maxOutputChunk)
 	for {
 		ss.mu.Lock()
 		ptySession := ss.PTYSession
